@@ -34,7 +34,8 @@ LEVEL = 'translation_validation'
 EXPLANATION = (
     "Two independently written sides of each algebraic identity (rkcommon's API versus the textbook definition or an "
     "independent rkcommon route) are compiled with the real flags to LLVM IR and compared by exact rational-function "
-    "normal form, for float (RKCOMMON_NO_SIMD, so rcp/rsqrt are plain divisions) and double instantiations: adjoint/det/"
+    "normal form, for float (RKCOMMON_NO_SIMD, so rcp/rsqrt are plain divisions), double and padded-float instantiations, the "
+    "latter also in the SIMD configuration (where a result computed from the never-written padding lane shows as an undef value): adjoint/det/"
     "inverse/transposed/rows of 2x2 and 3x3 matrices, multiplicativity of det, composition and inversion of affine maps, "
     "xfmPoint/xfmVector/xfmNormal, quaternion product laws, matrix-from-quaternion against q v conj(q), every branch of "
     "quaternion-from-matrix, Rodrigues form of rotate, rotate-about-a-point, lookat, yaw/pitch/roll. This decides the "
@@ -45,9 +46,13 @@ EXPLANATION = (
     "to N, and orthogonal() is the Newton step (X + X^-T)/2 whose constant budget and "
     "early-exit threshold bring every singular value in [1/64, 64] within 1e-6 of 1 (interval iteration of s -> (s+1/s)/2). "
     "Not decided: floating-point rounding beyond those clauses, the interpolation formula of slerp (transcendental), "
-    "frame() (selects between vector objects, outside the IR fragment), the SIMD rcp/rsqrt approximations (C07).")
+    "the SIMD rcp/rsqrt approximations (C07).")
 
 DRIVER = 'drivers/alg_linalg.cpp'
+# in the SIMD configuration rcp()/rsqrt() are the hardware estimates refined by one Newton step (property C07): identities whose
+# compiled body contains such an estimate are not exact there and are compared in the RKCOMMON_NO_SIMD configurations only
+SIMD_APPROX_RE = r'llvm\.x86\.(?:sse|avx512)\.(?:rcp|rsqrt)'
+SIMD_APPROX_MAX = 12     # 7 on the pinned tree
 FLOOR = 50
 SHAPE_DRIVER = 'drivers/c06_shape.cpp'
 NAMED_CONST = {'zero': 0.0, 'one': 1.0, 'two': 2.0, 'ulp': 1.1920929e-07, 'empty': None}
@@ -57,6 +62,9 @@ def variants(ctx):
     v = [('float', dict(simd=False, extra=('-DNDEBUG',)))]
     v.append(('double', dict(simd=False, extra=('-DNDEBUG', '-DRKV_SCALAR=double'))))
     v.append(('float/padded', dict(simd=False, extra=('-DNDEBUG', '-DRKV_PADDED'))))
+    # the SIMD build has its own code paths (explicit specialisations, intrinsics): the exact identities must hold there too, except the
+    # three that go through the approximate SIMD rcp()/rsqrt() kernels (their accuracy is C07's subject)
+    v.append(('float/padded/SIMD', dict(simd=True, extra=('-DNDEBUG', '-DRKV_PADDED'), skip_approx=True)))
     if ctx.tier == 'thorough':
         v.append(('double/gnu++17', dict(simd=False, std='gnu++17', extra=('-DNDEBUG', '-DRKV_SCALAR=double'))))
         v.append(('float/OMP', dict(simd=False, config='OMP', extra=('-DNDEBUG',))))
@@ -1138,6 +1146,51 @@ def check_frame(ctx, tu):
                 continue
             # non-vanishing: a bare cross(e_i, N) vanishes for N = e_i
             core = X[1] if X[0] == 'norm' else X
+
+            def comp(x):
+                """('abs'|'raw', axis index) of |N.c|, N.c*N.c or N.c"""
+                x = tu.strip(x, casts=True)
+                names = 'xyz'
+                if x.get('kind') == 'MemberExpr' and x.get('name') in names and tu.kids(x):
+                    for scope in (renv, env):
+                        try:
+                            if _vterm(tu, tu.kids(x)[0], scope) == N:
+                                return ('raw', names.index(x['name']))
+                        except _NoForm:
+                            pass
+                    return None
+                if x.get('kind') == 'CallExpr' and tu.sd(x).get('q', '').split('::')[-1] in ('abs', 'fabs') and len(tu.kids(x)) == 2:
+                    r = comp(tu.kids(x)[1])
+                    return ('abs', r[1]) if r else None
+                if x.get('kind') == 'BinaryOperator' and x.get('opcode') == '*':
+                    a, b = (comp(y) for y in tu.kids(x))
+                    if a and b and a == b and a[0] == 'raw':
+                        return ('abs', a[1])
+                return None
+
+            def axis_verdict(c, iA, iB):
+                """the condition c chooses between coordinate axes iA (true) and iB (false) to cross with N: 'ok' when the chosen axis is
+                the one with the smaller |component| of N, 'leans' when it is the larger, 'signed' when raw components are compared"""
+                if iA == iB or c.get('kind') != 'BinaryOperator' or c.get('opcode') not in ('>', '>=', '<', '<='):
+                    return None
+                l, r2 = (comp(x) for x in tu.kids(c))
+                if l and r2 and l[1] != r2[1] and {l[1], r2[1]} == {iA, iB}:
+                    big, small = (l, r2) if c['opcode'] in ('>', '>=') else (r2, l)     # condition true: |big| > |small|
+                    if l[0] == 'abs' and r2[0] == 'abs':
+                        return 'ok' if (iA == small[1] and iB == big[1]) else 'leans'
+                    if l[0] == 'raw' and r2[0] == 'raw':
+                        return 'signed'
+                return None
+
+            def report_axis(verdict, c, iA):
+                if verdict == 'signed':
+                    ctx.violation(R, inst, 'the helper axis is chosen by comparing signed components `%s`: for N = -e_%s the comparison picks the axis '
+                                  'parallel to N, cross(axis, N) is the zero vector and normalize() of it is not a unit vector' % (
+                                      tu.show(c)[:60], 'xyz'[iA]), tu.loc(r), key=key + 'selects-by-signed-component')
+                else:
+                    ctx.violation(R, inst, 'the selection `%s` chooses the coordinate axis N leans on MOST: for N along that axis cross(axis, N) vanishes'
+                                  % tu.show(c)[:60], tu.loc(r), key=key + 'selects-shorter')
+
             if core[0] == 'sel':
                 c = tu.strip(core[1])
                 A, B = core[2], core[3]
@@ -1169,8 +1222,32 @@ def check_frame(ctx, tu):
                             bad = True
                             continue
                 if okc is None and und is None:
+                    axes = lambda t: t[0] == 'cross' and ((t[1][0] == 'e' and t[2] == N) or (t[2][0] == 'e' and t[1] == N))
+                    if axes(A) and axes(B):
+                        iA, iB = ((t[1] if t[1][0] == 'e' else t[2])[1] for t in (A, B))
+                        verdict = axis_verdict(c, iA, iB)
+                        if verdict in ('signed', 'leans'):
+                            report_axis(verdict, c, iA)
+                            bad = True
+                            continue
+                        if verdict == 'ok':
+                            okc = True
+                if okc is None and und is None:
                     und = 'selection condition `%s` not recognised' % tu.show(c)[:100]
                 if und:
+                    break
+            elif core[0] == 'cross' and ((core[1][0] == 'sel' and core[2] == N) or (core[2][0] == 'sel' and core[1] == N)):
+                # cross(axis chosen by a test on N's components, N): the chosen axis must be one N does not lean on
+                sel = core[1] if core[1][0] == 'sel' else core[2]
+                c = tu.strip(sel[1])
+                A, B = sel[2], sel[3]
+                verdict = axis_verdict(c, A[1], B[1]) if (A[0] == 'e' and B[0] == 'e') else None
+                if verdict in ('signed', 'leans'):
+                    report_axis(verdict, c, A[1])
+                    bad = True
+                    continue
+                if verdict is None:
+                    und = 'axis selection `%s` not recognised' % tu.show(c)[:80]
                     break
             elif core[0] == 'cross' and (core[1][0] == 'e' or core[2][0] == 'e'):
                 ctx.violation(R, inst, 'the first axis is cross(axis, N) for one fixed coordinate axis: it vanishes when N is parallel to that axis',
@@ -1203,6 +1280,8 @@ def run(ctx):
     ir_units = []
     for vname, opts in variants(ctx):
         cfg = opts.pop('config', 'TBB')
+        skip_approx = opts.pop('skip_approx', False)
+        skip = set()
         try:
             ir = ctx.front.emit_ir(DRIVER, cfg, **opts)
         except AnalysisBroken as e:
@@ -1213,20 +1292,33 @@ def run(ctx):
         pairs = sorted(set(m.group(1) for m in re.finditer(r'@(P\d+_\w+?)__lhs\(', ir)))
         zeros = sorted(set(m.group(1) for m in re.finditer(r'@(P\d+_\w+?)__zero\(', ir)))
         n = 0
+        if skip_approx:
+            for m in re.finditer(r'define[^\n]*@(P\d+_\w+?)__(?:lhs|rhs|zero)\((.*?)\n}\n', ir, re.S):
+                if re.search(SIMD_APPROX_RE, m.group(2)):
+                    skip.add(m.group(1))
+            if len(skip) > SIMD_APPROX_MAX:
+                ctx.undecided(R, 'identities [%s]' % vname, '%d identities go through the SIMD rcp/rsqrt estimates (%d on the pinned tree): too few '
+                              'are left to compare in this configuration' % (len(skip), 7))
         for name in pairs + zeros:
+            if name in skip:
+                continue
             n += 1
             inst = '%s [%s]' % (name, vname)
             rule = '%s-%s' % (R, name.split('_')[0])
             ctx.rule_text.setdefault(rule, __doc__.split('  ' + name.split('_')[0] + ' ')[1].split('\n  P')[0].strip().replace('\n', ' ')
                                      if ('  ' + name.split('_')[0] + ' ') in __doc__ else '')
             key = '%s|%s|%s|identity' % (rule, 'rkcommon/math', name)
+            A_undef = ()
             try:
                 if name in zeros:
-                    A = mod.function(name + '__zero').summary().outs()
+                    sa = mod.function(name + '__zero').summary()
+                    A = sa.outs()
                     B = None
                 else:
-                    A = mod.function(name + '__lhs').summary().outs()
+                    sa = mod.function(name + '__lhs').summary()
+                    A = sa.outs()
                     B = mod.function(name + '__rhs').summary().outs()
+                A_undef = sa.undef_slots()
             except KeyError as e:
                 ctx.broken('%s: driver function missing: %s' % (inst, e))
                 continue
@@ -1254,6 +1346,11 @@ def run(ctx):
             bad = None
             und = None
             for slot in slots:
+                if slot not in A and slot in A_undef and (B is None or slot in B):
+                    # the rkcommon side stores an `undef` value: the compiler proved that the result is computed from an object
+                    # or vector lane that nothing on the path writes (e.g. the padding lane of a padded vec3 entering a sum)
+                    bad = (slot, 'undef (computed from a never-written lane / member)', (B[slot][0][1] if B else 0))
+                    break
                 if B is not None and (slot not in A or slot not in B):
                     und = 'output slot %s is written by one side only' % slot
                     break
@@ -1290,7 +1387,7 @@ def run(ctx):
                               path=['identity driver %s in %s' % (name, DRIVER), 'slot %s' % slot, 'lhs: %s' % str(tA)[:600], 'rhs: %s' % str(tB)[:600]])
             else:
                 ctx.ok(rule, inst, '%d output slot(s) identical' % len(slots), DRIVER)
-        ctx.floor('%s [%s]' % (R, vname), n, FLOOR, 'identity drivers in %s: 46 on the pinned tree' % DRIVER)
+        ctx.floor('%s [%s]' % (R, vname), n, FLOOR - (SIMD_APPROX_MAX if skip_approx else 0), 'identity drivers in %s: 52 on the pinned tree' % DRIVER)
     tu = ctx.front.parse(SHAPE_DRIVER, 'TBB')
     check_branch_conditioning(ctx, tu)
     check_slerp(ctx, tu)
